@@ -284,7 +284,7 @@ def elem_term(self, v, es):
     if isinstance(v, Opt) and es == R and is_z3(v.val):
         # adding None to a sorted set of strings would make it unorderable: the element must be a string here
         if getattr(self, "cur_st", None) is not None:
-            self.oblige(self.cur_st, z3.Not(v.isnone), f"label-not-None#{V.fresh_name('e')}", "exception-freedom", None,
+            self.oblige(self.cur_st, z3.Not(v.isnone), f"label-not-None@{getattr(self, 'cur_line', 0)}", "exception-freedom", getattr(self, 'cur_line', None),
                         "a None label is never put into a sorted set of strings")
         return v.val
     raise EngineError(f"set element {v!r}")
@@ -375,6 +375,7 @@ Engine.method_contract = method_contract
 def set_method(self, recv, s, m, e, st, spec):
     es = s["elem"]
     self.cur_st = st
+    self.cur_line = getattr(e, "lineno", 0)
     args = [self.ev(a, st, spec) for a in e.args]
     self.used_models.add(TRUSTED_SC)
     if m == "add":
@@ -521,6 +522,7 @@ _prev_sub = Engine.subscript_other
 
 
 def subscript_other(self, base, e, st, spec):
+    base = deopt(self, base, st, spec, e)
     if isinstance(base, Ref):
         o = _heap(st, base)
         if o["$cls"] == "MapOfSets":
@@ -590,6 +592,7 @@ Engine.store_sub_other = store_sub_other
 
 # ---- membership, len, truthiness, equality
 def contains(self, container, item, st, spec, node):
+    container = deopt(self, container, st, spec, node)
     if isinstance(container, Ref):
         o = _heap(st, container)
         if o["$cls"] == "MapOfSets":
@@ -609,7 +612,19 @@ Engine.contains = contains
 _prev_len = Engine.len_other
 
 
+def deopt(self, v, st, spec, node):
+    """Optional[object] used as an object: it must not be None here"""
+    if isinstance(v, Opt) and isinstance(v.val, (Ref, Handle)):
+        if not spec:
+            line = getattr(node, "lineno", None)
+            self.oblige(st, z3.Not(v.isnone), f"not-None@{line}:{getattr(node, 'col_offset', 0)}", "exception-freedom", line,
+                        "an Optional object is not None where it is used")
+        return v.val
+    return v
+
+
 def len_other(self, v, st, spec, e):
+    v = deopt(self, v, st, spec, e)
     if isinstance(v, Ref):
         o = _heap(st, v)
         if o["$cls"] == "MapOfSets":
@@ -888,6 +903,7 @@ _prev_iter_value = Engine.iter_value
 
 
 def iter_value(self, v, st, node):
+    v = deopt(self, v, st, False, node)
     if isinstance(v, MapView):
         o = _heap(st, v.owner)
         st.assume(*wf_set(o["keys"], o["nkeys"], o["kseq"], o["kidx"]))
